@@ -902,6 +902,31 @@ def c14_refusals(seed, tier):
                         os.unlink(outp)
             if rep == 0:
                 pin_with_full_seeds(W, R, rng)
+                # an archive with a valid header checksum whose dictionary lacks a required part (no chunker parameters,
+                # no compression entry): refused when it is opened - nothing created, an existing output left alone under -f
+                from . import pyfmt as _pf
+                pa_ = _pf.parse_archive(arch)
+                for part in ("chunk_compression", "chunker_params"):
+                    dd_ = _pf.decode_dictionary(pa_["dict_bytes"])
+                    dd_[part] = None
+                    crafted = _pf.build_header(_pf.encode_dictionary(dd_)) + arch[pa_["header_size"]:]
+                    cpath = W.write(crafted, ".nopart.cba")
+                    for prior_ in (None, rng.randbytes(400)):
+                        outp = W.fresh(".out")
+                        if prior_ is not None:
+                            with open(outp, "wb") as f:
+                                f.write(prior_)
+                        cls, rc, so, se = clone_cli(W, cpath, outp, force=prior_ is not None)
+                        req = "cli-clone of an archive whose dictionary has no %s (%s)" % (part, "output absent" if prior_ is None else "--force-create over an existing output")
+                        R.stat("dictionaries_without_a_required_part")
+                        if cls == "ok":
+                            R.fail("refusal-expected-but-clone-succeeded", req)
+                        elif cls != "err":
+                            R.fail("refusal-ended-in-%s" % cls, req)
+                        if read_file(outp) != prior_:
+                            R.fail("refused-operation-changed-the-output" if prior_ is not None else "refused-for-archive-reasons-but-output-created", req)
+                        if os.path.exists(outp):
+                            os.unlink(outp)
             # the same two rows on REAL block devices (loop devices, when one can be attached): smaller than the
             # source - refused, content untouched; large enough - cloned, nothing beyond the source length touched
             if rep == 0:
